@@ -1161,3 +1161,163 @@ def mc_raw(fn):
         if data.ndim != 2 or data.shape[1] != len(keys):
             return "shape %r keys %r" % (data.shape, keys)
         return "keys=%s | %s" % (",".join(keys), ",".join(rows))
+
+
+# ---------------------------------------------------------------------------------------------
+# several event handles / iterators of open readers alive at the same time
+def gen_script(rng, n, nreaders, length):
+    """random session on `nreaders` open readers of one file with n >= 1 events.
+    Actions: ("int", rid, key) / ("slice", rid, a, b, c) / ("iter", rid) create handle number = count of
+    creations so far; ("next", hid); ("exam", hid); ("reopen", rid) = close() + open() of the reader.
+    Handles are examined in a different order than created, interleaved with further accesses."""
+    script, handles = [], []      # handles: dict(kind, rid, k = successful nexts, left = events still to come, stale)
+    def create():
+        rid = rng.randrange(nreaders)
+        r = rng.random()
+        if r < 0.45:
+            key = rng.randrange(-n, n)
+            script.append(("int", rid, key))
+            handles.append({"kind": "int", "rid": rid, "k": 1, "left": 0, "stale": False})
+        elif r < 0.8:
+            a = rng.randrange(0, n)
+            b = rng.randrange(a + 1, n + 1)
+            c = rng.choice([None, 1, 1, 2, 3])
+            count = len(range(a, b, c or 1))
+            sa = rng.choice([a, a - n] + ([None] if a == 0 else []))
+            sb = rng.choice([b] + ([b - n] if b < n else [None]))
+            script.append(("slice", rid, sa, sb, c))
+            handles.append({"kind": "it", "rid": rid, "k": 0, "left": count, "stale": False})
+        else:
+            script.append(("iter", rid))
+            handles.append({"kind": "it", "rid": rid, "k": 0, "left": n, "stale": False})
+    for _ in range(rng.randint(2, 3)):
+        create()
+    while len(script) < length:
+        r = rng.random()
+        live = [i for i, h in enumerate(handles) if h["k"] >= 1 and h["left"] >= 0]
+        adv = [i for i, h in enumerate(handles) if h["kind"] == "it" and not h["stale"] and h["left"] >= 0]
+        if r < 0.3 or not handles:
+            create()
+        elif r < 0.6 and adv:
+            i = rng.choice(adv)
+            script.append(("next", i))
+            h = handles[i]
+            if h["left"] > 0:
+                h["k"] += 1
+                h["left"] -= 1
+            else:
+                h["left"] = -1          # StopIteration: exhausted, not examined any more
+        elif r < 0.95 and live:
+            script.append(("exam", rng.choice(live)))
+        elif r >= 0.95:
+            rid = rng.randrange(nreaders)
+            script.append(("reopen", rid))
+            for h in handles:
+                if h["rid"] == rid:
+                    h["stale"] = True
+    # finally every handle that shows an event is examined, oldest first and then newest first
+    live = [i for i, h in enumerate(handles) if h["k"] >= 1 and h["left"] >= 0]
+    script += [("exam", i) for i in live] + [("exam", i) for i in reversed(live)]
+    return script
+
+
+def run_session(fn, srs, script):
+    """execute a script on real readers (one per entry of srs, all open at once).
+    -> (observations: one per action, alias problems found between live handles)"""
+    readers = [Reader(fn, sr) for sr in srs]
+    handles, obs, alias = [], [], []
+    try:
+        for act in script:
+            kind = act[0]
+            try:
+                if kind == "int":
+                    handles.append(readers[act[1]].f[act[2]])
+                    obs.append("ok")
+                elif kind == "slice":
+                    handles.append(readers[act[1]].f[act[2]:act[3]:act[4]])
+                    obs.append("ok")
+                elif kind == "iter":
+                    handles.append(iter(readers[act[1]].f))
+                    obs.append("ok")
+                elif kind == "next":
+                    try:
+                        next(handles[act[1]])
+                        obs.append("ok")
+                    except StopIteration:
+                        obs.append("stop")
+                elif kind == "exam":
+                    obs.append(canon_event(handles[act[1]], readers[0].mckeys))
+                elif kind == "reopen":
+                    readers[act[1]].f.close()
+                    readers[act[1]].f.open()
+                    obs.append("ok")
+            except Exception as e:      # noqa: BLE001
+                obs.append(("EXC", kind, _tail(e)))
+                if kind in ("int", "slice", "iter"):
+                    handles.append(None)
+            # object-identity probe: distinct iterators must not share their loaded-chunk storage
+            if kind in ("int", "slice", "iter", "next") and not alias:
+                its = [h for h in handles if h is not None]
+                for i in range(len(its)):
+                    for j in range(i + 1, len(its)):
+                        x, y = its[i], its[j]
+                        if x is y:
+                            continue
+                        dx, dy = getattr(x, "_data", None), getattr(y, "_data", None)
+                        if dx is not None and dx is dy:
+                            alias.append("handles %d and %d share one _data dict" % (i, j))
+                        elif isinstance(dx, dict) and isinstance(dy, dict):
+                            for key in dx:
+                                if key in dy and dx[key] is dy[key] and len(dx[key]) > 0:
+                                    alias.append("handles %d and %d share the list _data[%r]" % (i, j, key))
+                                    break
+    finally:
+        for r in readers:
+            try:
+                r.close()
+            except Exception:      # noqa: BLE001
+                pass
+    return obs, alias
+
+
+def script_paths(script):
+    """per handle: ('int', rid, key) | ('slice', rid, a, b, c) | ('iter', rid), and per exam action the number
+    of successful... (computed by the caller from the expected event lists)"""
+    return [a for a in script if a[0] in ("int", "slice", "iter")]
+
+
+def session_expected(script, lists):
+    """expected observation per action given, per handle, the list of events its iterator yields
+    (`lists[h]`; for an int handle a one-element list, or an error name)"""
+    pos, out = {}, []
+    h = 0
+    for act in script:
+        kind = act[0]
+        if kind in ("int", "slice", "iter"):
+            pos[h] = 1 if kind == "int" else 0
+            out.append("ok" if not isinstance(lists[h], str) else ("ERR", lists[h]))
+            h += 1
+        elif kind == "next":
+            i = act[1]
+            if pos[i] < len(lists[i]):
+                pos[i] += 1
+                out.append("ok")
+            else:
+                out.append("stop")
+        elif kind == "exam":
+            i = act[1]
+            out.append(lists[i][pos[i] - 1])
+        else:
+            out.append("ok")
+    return out
+
+
+def diff_session(script, exp, obs):
+    for step, (act, e, o) in enumerate(zip(script, exp, obs)):
+        if act[0] == "exam":
+            why = diff_events([e], [o]) if isinstance(o, dict) else "examining raised %r" % (o,)
+            if why:
+                return "step %d %r: handle %d does not show its own event: %s" % (step, act, act[1], why)
+        elif e != o:
+            return "step %d %r: expected %r, got %r" % (step, act, e, o)
+    return None
